@@ -27,7 +27,7 @@ FRAGS = ['>>> ', '... ', '>>>', '...', 'x = 1', 'print(x)', 'f(', ')', '[', ']',
          'Example:', 'Args:', 'Returns:', 'é', '　', '1', 'x', ';', ':', ',', '@', '=', '==', '(' * 30, '[(' * 20, 'text', 'Traceback (most recent call last):',
          '<BLANKLINE>', '  # comment', '$', '?', '`', '!x', 'async def g():', 'await z', 'with a as b:', 'try:', 'except:', 'global x', 'nonlocal y']
 GOOD_BEFORE = ['>>> a = 1', '>>> print(a)', '1']
-SKIPHDR = ['Ignore:', 'Script:', 'DisableDoctest:', 'Benchmark:', 'Example:', 'Doctest:', 'Notes:']
+SKIPHDR = ['Ignore:', 'Script:', 'DisableDoctest:', 'Benchmark:', 'Example:', 'Doctest:', 'Notes:', 'Example :', 'Args :', 'Returns  ::', 'Examples::', 'Doctest : ']
 
 
 class Timeout(BaseException):
